@@ -148,19 +148,43 @@ def hygiene(files=None):
         files = []
         for d, _, fs in os.walk(os.path.join(COQ, "theories")):
             files += [os.path.join(d, f) for f in fs if f.endswith(".v")]
+    # the scan of one file depends on its content only: results are memoised by content hash
+    # (a cache miss or an unreadable cache just means the file is scanned again)
+    cache_path = os.path.join(WORK, "hygiene_cache.json")
+    try:
+        cache = json.load(open(cache_path))
+    except Exception:
+        cache = {}
+    new_cache = {}
     for f in sorted(files):
-        src = strip_comments(open(f, errors="replace").read())
+        raw = open(f, errors="replace").read()
+        rel = os.path.relpath(f, ROOT)
+        key = rel + ":" + hashlib.sha1(raw.encode("utf-8", "replace")).hexdigest()
+        if key in cache:
+            new_cache[key] = cache[key]
+            problems += cache[key]
+            continue
+        mine = []
+        src = strip_comments(raw)
         depth = 0
         for ln, line in enumerate(src.split("\n"), 1):
             m = _BAD.search(line)
             if m:
-                problems.append("%s:%d: forbidden `%s`" % (os.path.relpath(f, ROOT), ln, m.group(1)))
+                mine.append("%s:%d: forbidden `%s`" % (rel, ln, m.group(1)))
             if _SEC.match(line):
                 depth += 1
             elif _END.match(line) and depth > 0:
                 depth -= 1
             elif _SECVAR.match(line) and depth == 0:
-                problems.append("%s:%d: Variable/Hypothesis outside a section" % (os.path.relpath(f, ROOT), ln))
+                mine.append("%s:%d: Variable/Hypothesis outside a section" % (rel, ln))
+        new_cache[key] = mine
+        problems += mine
+    try:
+        tmp = cache_path + ".%d" % os.getpid()
+        json.dump(new_cache, open(tmp, "w"))
+        os.replace(tmp, cache_path)
+    except Exception:
+        pass
     cp = open(os.path.join(COQ, "_CoqProject")).read()
     for flag in ("-type-in-type", "-impredicative-set", "-vos", "-vok"):
         if flag in cp:
